@@ -195,6 +195,22 @@ func runC09(c *Ctx, w *World, r *Report) {
 			}
 			return
 		}
+		// the scan counter: the loop-header phi the elements of a are indexed with
+		scanIV := func() *ssa.Phi {
+			var out *ssa.Phi
+			eachInstr(fn, func(ins ssa.Instruction) {
+				v, ok := ins.(ssa.Value)
+				if !ok || out != nil {
+					return
+				}
+				if c, idx, ok := asElemLoad(v); ok && paramIndex(c) == 0 {
+					if iv, ok := fa.InductionOf(idx, ins.Block()); ok && iv.Phi != nil {
+						out = iv.Phi
+					}
+				}
+			})
+			return out
+		}
 		for _, ret := range returnsOf(fn) {
 			for _, leaf := range fa.leavesOf(ret.Results[0], ret.Block(), 0) {
 				k, isC := constInt64(stripConv(leaf.V))
@@ -204,6 +220,44 @@ func runC09(c *Ctx, w *World, r *Report) {
 					}
 					bad = "result " + fmtVal(w, leaf.V) + " is neither a constant verdict nor bytes.Compare(a, b)"
 					continue
+				}
+				// "equal" (and "a is a prefix of b") may only be said once every byte of a was compared: the scan index has
+				// reached len(a), or stands on the last byte and that byte compared equal
+				if k == 0 || k == -1 {
+					if ivp := scanIV(); ivp != nil {
+						exhausted := k == 0
+						if k == -1 {
+							for _, cd := range leaf.Conds {
+								if D, op, ok := fa.CondRel(cd); ok && (op == opLT && D.T["call:builtin len(p1)"] == -1 || op == opGT && D.T["call:builtin len(p1)"] == 1) {
+									exhausted = true
+								}
+							}
+							if l, _ := impliedCmp(leaf.Conds); l {
+								exhausted = false
+							}
+							for _, cd := range leaf.Conds {
+								if l, _ := elemCmp(cd); l {
+									exhausted = false
+								}
+							}
+						}
+						if exhausted {
+							d := fa.Lin(ivp).Sub(linAtom("call:builtin len(p0)"))
+							bd := fa.boundsFrom(leaf.Conds, d)
+							okCov := bd.HasLo && bd.Lo >= 0
+							if !okCov && bd.HasLo && bd.Lo >= -1 {
+								// the last byte, compared equal on this path
+								for _, cd := range leaf.Conds {
+									if o, iv, ok := elemRel(cd); ok && o == int(opEQ) && iv == fa.VN(ivp) {
+										okCov = true
+									}
+								}
+							}
+							if !okCov {
+								bad = fmt.Sprintf("the verdict %d (nothing differs) is returned at %s where the scan index is only known to satisfy (i - len(a)) in %s: bytes of a behind it were never compared", k, w.InstrPos(ret), bd)
+							}
+						}
+					}
 				}
 				if k == 0 {
 					continue
